@@ -118,6 +118,13 @@ def handle (line : String) : String :=
       let l := liftAxes off axes
       showNats l ++ "|" ++ showNats (transposeShape l sh)
     | _, _, _ => "bad-request"
+  | ["transpose", axes, sh] =>
+    -- specification of numpy.transpose as (shape, element map), tabulated
+    match parseNats axes, parseNats sh with
+    | some axes, some sh =>
+      let rs := transposeShape axes sh
+      "ok " ++ showNats rs ++ " : " ++ showNats ((allIdx rs).map fun idx => flatIdx sh (transposeSrc axes idx))
+    | _, _ => "bad-request"
   | ["matmul", a, b] =>
     match parseNats a, parseNats b with
     | some a, some b => showOpt (matmulShape a b) ++ "|" ++ showOpt (npMatmulShape a b)
